@@ -87,7 +87,8 @@ def main():
             os.makedirs(os.path.dirname(os.path.join(wt, rel)), exist_ok=True)
             shutil.copy(os.path.join(agent_wt, rel), os.path.join(wt, rel))
         pkgs = sorted(set("./" + os.path.dirname(r) for r in demo_rel))
-        demo_run = "go test -vet=off -count=1 %s" % " ".join(pkgs) if pkgs else demo_cmd
+        race = "-race " if "-race" in demo_cmd else ""  # a demonstration of a data race only fails under the detector
+        demo_run = "go test %s-vet=off -count=1 %s" % (race, " ".join(pkgs)) if pkgs else demo_cmd
         rc1, out1 = sh(demo_run + " 2>&1 | tail -15", cwd=wt)
         fails_with = "FAIL" in out1
         sh("git apply -R %s" % patch, cwd=wt)
